@@ -25,3 +25,50 @@ mod kani_harnesses {
         assert!(m.total_length() as u128 == sum);
     }
 }
+
+// Metainfo::create_file is NOT under contract (slice::chunks + flat_map, the hashmap! macro, OsString, std::fs are outside the
+// Verus subset).  BOUNDED stand-in for the "conversely" half of C17: the REAL create_file is run on files of the lengths
+// {0, 1, L-1, L, L+1, 2L, 2L+12345} (L = 256 KiB), the .torrent it writes is read back with the REAL Metainfo::from_file, and name,
+// length, piece length, tracker URL and the SHA-1 of every chunk (computed here, one fresh hasher per chunk) are compared.
+#[cfg(all(test, rdest_verif))]
+mod native {
+    use super::*;
+    #[test]
+    fn native_c17_create_file_roundtrip_sizes() {
+        let l = crate::constants::PIECE_LENGTH;
+        let dir = std::path::PathBuf::from(format!("/verif/.cache/native-tmp/c17-{}", std::process::id()));
+        let _ = std::fs::remove_dir_all(&dir);
+        std::fs::create_dir_all(&dir).unwrap();
+        std::env::set_current_dir(&dir).unwrap();
+        let tracker = "http://tracker.example:6969/announce?key=Ab1".to_string();
+        let mut checked = 0;
+        for (k, len) in [0usize, 1, l - 1, l, l + 1, 2 * l, 2 * l + 12345].iter().enumerate() {
+            let name = format!("data{}.bin", k);
+            let data: Vec<u8> = (0..*len).map(|i| ((i * 31 + 7 + k) % 251) as u8).collect();
+            std::fs::write(dir.join(&name), &data).unwrap();
+            Metainfo::create_file(&dir.join(&name), &tracker).expect("create_file");
+            let m = Metainfo::from_file(Path::new(&format!("{}.torrent", name)));
+            if *len == 0 {
+                // an empty file has no pieces; whatever parse says about such a torrent, it must not be a wrong non-empty one
+                if let Ok(m) = m { assert_eq!(m.pieces_num(), 0, "len 0"); assert_eq!(m.total_length(), 0, "len 0"); }
+                checked += 1;
+                continue;
+            }
+            let m = m.unwrap_or_else(|e| panic!("the torrent created for a {}-byte file does not parse back: {:?}", len, e));
+            assert_eq!(m.name, name, "name, len {}", len);
+            assert_eq!(m.total_length(), *len as u64, "length, len {}", len);
+            assert_eq!(m.tracker_url(), &tracker, "tracker url, len {}", len);
+            assert_eq!(m.piece_length as usize, l, "piece length, len {}", len);
+            assert_eq!(m.pieces_num(), (*len + l - 1) / l, "number of pieces, len {}", len);
+            for (i, chunk) in data.chunks(l).enumerate() {
+                let mut h = sha1_smol::Sha1::new();
+                h.update(chunk);
+                assert_eq!(m.piece(i), &h.digest().bytes(), "SHA-1 of chunk {} of a {}-byte file", i, len);
+            }
+            checked += 1;
+        }
+        assert!(checked == 7);
+        std::env::set_current_dir("/").unwrap();
+        let _ = std::fs::remove_dir_all(&dir);
+    }
+}
